@@ -179,6 +179,13 @@ def run(ctx):
     trunc = [("frag-3SGB-E-ASP-without-oxygens", "frag-1FTJ", 30000, (1, 0, 0), 0, False),
              ("frag-3SGB-E-ASP-without-oxygens", "frag-3SGB-I", 300000, (0, -1, 0), 1, False)]
     combos += trunc if ctx.thorough() else [trunc[0]]
+    # two chains that each start with an aspartate (two covalently coupled systems), scored with the optional settings of
+    # that coupling (names ending in [tag]: parameter-file variant of c02.PARAMS)
+    ps["frag-3SGB-I [ccc]"] = C.chain_lines("3SGB", "I", 0, 14)
+    ps["frag-3SGB-I [ccc+shared+keep]"] = C.chain_lines("3SGB", "I", 0, 14)
+    cc = [("frag-3SGB-I [ccc]", "frag-3SGB-I [ccc]", 300000, (1, 0, 0), 0, False),
+          ("frag-3SGB-I [ccc+shared+keep]", "frag-3SGB-I [ccc+shared+keep]", 27000, (0, 0, 1), 1, False)]
+    combos += cc if ctx.thorough() else [cc[ctx.seed % 2]]
     rels = []
     skipped = 0
     for a, b, gap, d, order, meet in combos:
@@ -208,7 +215,9 @@ def run(ctx):
         strip_ter = lambda ls: [ln for ln in ls if not ln.startswith("TER")]  # noqa
         union = C.join(strip_ter(first) + [C.TER] + strip_ter(second) + [C.TER])
         ta, tb = C.join(strip_ter(a2) + [C.TER]), C.join(strip_ter(b2) + [C.TER])
-        ru = runner.run(union, ["-q"], write=False)
+        from . import c04
+        ropts = c04.opts_for(a) if a.endswith("]") else c04.opts_for(b)
+        ru = runner.run(union, ropts, write=False)
         ctx.count()
         meta = {"a": a, "b": b, "gap_mA": gap, "direction": d, "order": order, "numbers_meet": meet, "pdb": union}
         if ru.exc is not None:
@@ -216,7 +225,7 @@ def run(ctx):
                           f"union of {a} and {b} at {gap / 1000} A along {d} raises {ru.exc!r}", meta)
             continue
         for tag, ptext in (("a", ta), ("b", tb)):
-            rp = runner.run(ptext, ["-q"], write=False)
+            rp = runner.run(ptext, ropts, write=False)
             ctx.count()
             if rp.exc is not None:
                 continue
